@@ -90,8 +90,9 @@ class TopoART(BaseART):
         assert "beta_lower" in params
         assert "tau" in params
         assert "phi" in params
-        assert params["beta"] >= params["beta_lower"]
-        assert params["phi"] <= params["tau"]
+        assert params["beta"] >= params["beta_lower"] >= 0.0
+        assert 0 <= params["phi"] <= params["tau"]
+        assert params["tau"] >= 1
         assert isinstance(params["beta"], float)
         assert isinstance(params["beta_lower"], float)
         assert isinstance(params["tau"], int)
